@@ -1,4 +1,4 @@
-import Glom.Model.C13
+import Glom.Spec.C13
 import Glom.Generated.C13Facts
 /-
   C13 environment: the `Setup` (registration sequences of `TargetRegistry.__init__`,
@@ -21,6 +21,55 @@ def builtinTab : HierTab where
 
 def builtinHier : Hier := builtinTab.toHier
 
+/-- the builtin hierarchy plus the probe subclasses (`class Sub_dict(dict): pass`,
+    `class SubS_dict(dict): __slots__ = ()`, … one pair per builtin target type), with the rows the
+    interpreter and glom's auto-discovery functions answered for them on this run -/
+def probeTab : HierTab where
+  mro := Generated.c13Mro ++ Generated.c13ProbeMro
+  inst := Generated.c13Inst ++ Generated.c13ProbeInst
+  sub := Generated.c13Sub ++ Generated.c13ProbeSub
+  auto := Generated.c13Auto.map (fun fr => (fr.1, fr.2 ++ (odGet fr.1 Generated.c13ProbeAuto).getD []))
+
+def probeHier : Hier := probeTab.toHier
+
+/-- the module-level registry over a hierarchy, the sets of known types iterated in the order of
+    their first registration (the order is not observable, `c13_default_glommer`) -/
+def canonModuleRegS (H : Hier) (S : Setup) : Reg :=
+  let r0 := freshReg H S true
+  S.moduleOps.foldl (fun r o => registerOp H r o.op o.auto o.exact r.knownTypes) r0
+
+def canonModuleReg (H : Hier) : Reg := canonModuleRegS H genSetup
+
+/-- the registration sequences read from the source build the registries the property takes as
+    given (`pinnedSetup`): a bare registry, a default registry and the module-level registry, over
+    the builtin hierarchy.  (Compared as registries, not as lists of calls: merging the two `dict`
+    registrations into one call, say, changes nothing.) -/
+def setupOK : Bool :=
+  decide (freshReg builtinHier genSetup false = freshReg builtinHier pinnedSetup false) &&
+  decide (freshReg builtinHier genSetup true = freshReg builtinHier pinnedSetup true) &&
+  decide (canonModuleRegS builtinHier genSetup = canonModuleRegS builtinHier pinnedSetup)
+
+/-- glom's two duck types answer what they are meant to on the builtin target types:
+    `_AbstractIterable` = has a callable `__iter__` and is not `str` / `bytes` (for `issubclass` and,
+    apart from an instance of the class itself, for `isinstance`); `_ObjStyleKeys` (and the
+    `_AbstractKeys` base it shares its metaclass with) = the instance has a `__dict__` with keys.
+    `c13HasIter` / `c13HasDict` are read from the builtin types directly, not through glom. -/
+def duckOK : Bool :=
+  Generated.c13Types.all (fun t =>
+    let iterable := Generated.c13HasIter.contains t && !(["str", "bytes"].contains t)
+    (builtinTab.sub.contains (t, "_AbstractIterable") == iterable) &&
+    (builtinTab.inst.contains (t, "_AbstractIterable") == (iterable || t == "_AbstractIterable")) &&
+    (builtinTab.inst.contains (t, "_ObjStyleKeys") == (Generated.c13HasDict.contains t || t == "_ObjStyleKeys")) &&
+    (builtinTab.inst.contains (t, "_AbstractKeys") == (Generated.c13HasDict.contains t || t == "_AbstractKeys")))
+
+/-- the auto-discovery functions of the two builtin ops answer what they are meant to on the
+    builtin target types: `iterate` → `iter` exactly for the types with a callable `__iter__`,
+    `get` → `getattr` for every type -/
+def autoOK : Bool :=
+  Generated.c13Types.all (fun t =>
+    builtinHier.auto "auto_iterate" t == (if Generated.c13HasIter.contains t then some "iter" else none) &&
+    builtinHier.auto "auto_get" t == some "getattr")
+
 /-- the decision shape of the code the model mirrors, as read from the AST on this run -/
 def shapeOK : Bool :=
   Generated.c13InitFresh && Generated.c13InitOrder && Generated.c13RegisterResetsMemo &&
@@ -31,11 +80,13 @@ def shapeOK : Bool :=
   Generated.c13RegisterWritesAfterLastRaise && Generated.c13RegisterOpWritesAfterLastRaise &&
   Generated.c13RegisterEarlyWrites.all (· == "_op_type_map.setdefault(k, <empty>)") &&
   Generated.c13RegisterOpEarlyWrites.isEmpty &&
-  Generated.c13MemoStoresOnlySuccess && Generated.c13ClosestPicksMin &&
+  Generated.c13MemoStoresOnlySuccess && Generated.c13MemoHitRaises &&
+  -- `register_op` walks the known types in registration order (a list), not a set of types
+  Generated.c13KnownTypesOrdered && Generated.c13ClosestPicksMin &&
   Generated.c13ClosestDropsSupers && Generated.c13MatchingDeepest &&
   Generated.c13FuzzyGuardsExisting &&
   Generated.c13GlommerOwnRegistry && Generated.c13GlommerCopiesOps &&
   Generated.c13GlommerDelegates &&
-  Generated.c13ModuleDelegates && Generated.c13ModuleRegistryDefault
+  Generated.c13ModuleDelegates && Generated.c13ModuleRegistryDefault && duckOK && autoOK && setupOK
 
 end Glom.C13
